@@ -195,3 +195,54 @@ Proof.
   cbv zeta. split; [|split; [reflexivity|split; [discriminate|split; vm_compute; reflexivity]]].
   cbn [Nest]. repeat split; try (vm_compute; reflexivity); try (vm_compute; intros H; discriminate H); try (vm_compute; lia).
 Qed.
+
+(* ---- mirror registrations carried over by append_mapping / append_mapping_inverted / invert (Proofs/MirrorAppend.v) ----
+   [MirrorWF other]: other's mirror table pairs indices of its own maps (symmetric, no map its own mirror).
+   [MirrorBelow self]: the pairs self holds refer to maps of self. *)
+From PM Require Import Proofs.MirrorAppend.
+
+(* after self.append_mapping(other): map number i of other sits at index |self| + i and its mirror is other's mirror of
+   i, shifted by |self|; the registrations of self's own maps are untouched *)
+Theorem C08_append_mapping_mirrors : forall self other i,
+  MirrorWF other -> MirrorBelow self -> 0 <= i < Z.of_nat (length (maps other)) ->
+  get_mirror (append_mapping self other) (Z.of_nat (length (maps self)) + i) =
+  option_map (Z.add (Z.of_nat (length (maps self)))) (get_mirror other i).
+Proof. exact append_mapping_get_mirror_new. Qed.
+Print Assumptions C08_append_mapping_mirrors.
+
+Theorem C08_append_mapping_keeps_own_mirrors : forall self other j,
+  MirrorWF other -> 0 <= j < Z.of_nat (length (maps self)) ->
+  get_mirror (append_mapping self other) j = get_mirror self j.
+Proof. exact append_mapping_get_mirror_old. Qed.
+Print Assumptions C08_append_mapping_keeps_own_mirrors.
+
+(* after self.append_mapping_inverted(other): map number i of other sits, inverted, at index |self| + (len - 1 - i),
+   and its mirror is the new index of other's mirror of i *)
+Theorem C08_append_mapping_inverted_mirrors : forall self other i ss len,
+  MirrorWF other -> MirrorBelow self ->
+  ss = Z.of_nat (length (maps self)) -> len = Z.of_nat (length (maps other)) -> 0 <= i < len ->
+  get_mirror (append_mapping_inverted self other) (ss + (len - 1 - i)) =
+  option_map (fun k => ss + (len - 1 - k)) (get_mirror other i).
+Proof. exact append_mapping_inverted_get_mirror_new. Qed.
+Print Assumptions C08_append_mapping_inverted_mirrors.
+
+(* Mapping.invert: the inverted mapping mirrors exactly the (index-flipped) pairs of the original *)
+Corollary C08_invert_mirrors : forall mp i len,
+  MirrorWF mp -> len = Z.of_nat (length (maps mp)) -> 0 <= i < len ->
+  get_mirror (minvert mp) (len - 1 - i) = option_map (fun k => len - 1 - k) (get_mirror mp i).
+Proof.
+  intros mp i len WF El Hi. unfold minvert.
+  pose proof (append_mapping_inverted_get_mirror_new (mk_mapping []) mp i 0 len WF) as H.
+  cbn [Z.add] in H. apply H; auto. intros a b [].
+Qed.
+Print Assumptions C08_invert_mirrors.
+
+(* the hypotheses are met by a map followed by its inverse, registered as mirrors *)
+Example C08_mirror_wf_example : forall m,
+  MirrorWF {| maps := [m; invert m]; mirror := [(0, 1)]; mfrom := 0; mto := 2 |}.
+Proof.
+  intros m a b H. unfold get_mirror in *. cbn [mirror get_mirror_go maps length] in *.
+  destruct (0 =? a) eqn:E0.
+  - inversion H; subst b. assert (a = 0) by lia. subst a. cbn. split; [reflexivity|]. lia.
+  - destruct (1 =? a) eqn:E1; [|discriminate]. inversion H; subst b. assert (a = 1) by lia. subst a. cbn. split; [reflexivity|]. lia.
+Qed.
